@@ -375,7 +375,36 @@ func eqVal(a, b *Val) *Term {
 	if a.X.S != b.X.S {
 		panic(fmt.Sprintf("eqVal sort mismatch: %v(%s) vs %v(%s)", a.T, a.X.S, b.T, b.X.S))
 	}
+	if a.K == KArr || b.K == KArr {
+		return eqArr(a, b)
+	}
 	return Eq(a.X, b.X)
+}
+
+// eqArr: Go array equality compares exactly the N elements (the SMT arrays may differ outside [0,N)).
+func eqArr(a, b *Val) *Term {
+	if a.X == b.X {
+		return TTrue
+	}
+	var at *types.Array
+	if t, ok := under(a.T).(*types.Array); ok {
+		at = t
+	} else if t, ok := under(b.T).(*types.Array); ok {
+		at = t
+	}
+	if at == nil || !a.X.S.IsArr() {
+		return Eq(a.X, b.X)
+	}
+	n := at.Len()
+	if n <= 64 {
+		var cs []*Term
+		for i := int64(0); i < n; i++ {
+			cs = append(cs, Eq(Select(a.X, Num(i)), Select(b.X, Num(i))))
+		}
+		return And(cs...)
+	}
+	q := BoundVar("i", SInt)
+	return Forall([]*Term{q}, Implies(And(Le(Num(0), q), Lt(q, Num(n))), Eq(Select(a.X, q), Select(b.X, q))))
 }
 
 // ---------------------------------------------------------------------------------------------
@@ -656,9 +685,23 @@ func (s *State) loadAt(root, path string, ref, idx *Term, t types.Type) *Val {
 		}
 		return v
 	case *types.Slice:
-		return &Val{K: KSlice, T: t, X: rd(path+"#arr", types.Typ[types.Int]), Off: rd(path+"#off", types.Typ[types.Int]), Len: rd(path+"#len", types.Typ[types.Int]), Cap: rd(path+"#cap", types.Typ[types.Int])}
+		v := &Val{K: KSlice, T: t, X: rd(path+"#arr", types.Typ[types.Int]), Off: rd(path+"#off", types.Typ[types.Int]), Len: rd(path+"#len", types.Typ[types.Int]), Cap: rd(path+"#cap", types.Typ[types.Int])}
+		if v.Len.Op == "select" {
+			addTypeFact(And(Le(Num(0), v.X), Le(Num(0), v.Off), Le(Num(0), v.Len), Le(v.Len, v.Cap), Le(v.Cap, Pow2(62)), Le(v.Off, Pow2(62)), Implies(Eq(v.X, Num(0)), Eq(v.Cap, Num(0)))))
+		}
+		return v
 	case *types.Pointer:
-		return mkPtr(t, rd(path, t))
+		x := rd(path, t)
+		if x.Op == "select" {
+			addTypeFact(Le(Num(0), x))
+		}
+		return mkPtr(t, x)
+	case *types.Interface, *types.Map:
+		x := rd(path, t)
+		if x.Op == "select" {
+			addTypeFact(Le(Num(0), x))
+		}
+		return &Val{K: kindOf(t), T: t, X: x}
 	}
 	x := rd(path, t)
 	v := &Val{K: kindOf(t), T: t, X: x}
@@ -714,6 +757,13 @@ func addTypeFact(t *Term) {
 	typeFactSeen[t.id] = true
 	typeFacts = append(typeFacts, t)
 	globalFacts = append(globalFacts, t)
+}
+
+// elemRangeFact adds the range of an array element read (elements of integer arrays are within their type's range).
+func elemRangeFact(x *Term, et types.Type) {
+	if lo, hi, ok := intRange(et); ok && x.Op == "select" {
+		addTypeFact(And(Le(lo, x), Le(x, hi)))
+	}
 }
 
 // globalFacts accumulates unconditional facts about fresh symbols (type ranges, axioms instances).
